@@ -8,7 +8,15 @@
    A register system is a list of nodes; a node id is its index.  The address of a register
    is <Address> plus, for every <pIndex Offset=o>V</pIndex>, o * (value of the variable V)
    (RegPIndex::value, AddressKind::value, RegisterBase::address), computed with i64
-   overflow checks (debug build).  Length is immediate.
+   overflow checks (debug build).  The length is either immediate (<Length>) or the value of an
+   Integer node with <Value> referenced by <pLength> (RegisterBase::length ->
+   ImmOrPNode::value -> IInteger::value of the node = the variable of the value store; the
+   same kind of variable <pIndex> refers to).  It is evaluated wherever the code evaluates it:
+   with_cache_or_read: length, then address; IRegister::read: address, then length;
+   write_and_cache: invalidate_cache_by, length, buffer check, address; IntReg / FloatReg
+   set_value: invalidate_cache_by, length, encode, write_and_cache; MaskedIntReg: length again
+   after the register value for the bit positions; StringReg::set_value: max_length = length
+   first.  Cache keys are (node, address, CURRENT length).
 
    [on] says whether the context was built with DefaultCacheStore (true) or with
    .no_cache() = CacheSink (false): with CacheSink, cache() stores nothing, get_cache()
@@ -29,9 +37,15 @@
    the same writes.  Every access (also a failing one) is logged.
 
    Domain of the model (what the generator produces): AccessMode RW, no pIsAvailable /
-   pIsImplemented / pIsLocked, immediate Length >= 0, pIndex nodes are Integer nodes with
-   <Value>, <pValue> / command targets are integer-valued nodes; anything else yields the
-   distinct error 92. *)
+   pIsImplemented / pIsLocked, pIndex and pLength nodes are Integer nodes with <Value>,
+   <pValue> / command targets are integer-valued nodes; anything else yields the distinct
+   error 92.  GUARD on lengths: the model describes lengths >= 0 (immediate or current value
+   of the length variable); for a negative length the code computes `length as usize` >= 2^63
+   (`vec![0; length as usize]` panics with "capacity overflow", buffer comparisons fail) - there
+   the model is not a description of the code: it answers the distinct error 92 where the length
+   reaches the cache layer (or the encoder's InvalidBuffer before that).  The generator keeps
+   every length variable inside 0..=16 (a huge positive length would make the code allocate
+   that many bytes). *)
 From Cam Require Export Outcome Bytes Mem BitField RegCodec.
 
 Record ver := { fix_wa : bool; fix_raw : bool }.
@@ -43,12 +57,14 @@ Definition WT : Z := 0.      (* WriteThrough *)
 Definition WA : Z := 1.      (* WriteAround *)
 Definition NC : Z := 2.      (* NoCache *)
 
+Inductive rlen := LImm (l : Z) | LVar (slot : Z).
+
 (* g_kind: 0 IntReg, 1 FloatReg, 2 StringReg, 3 Register, 4 MaskedIntReg / StructEntry *)
 Record creg := {
   g_kind : Z; g_sign : Z; g_endian : Z; g_lsb : Z; g_msb : Z;
   g_base : Z;                      (* <Address> *)
   g_index : list (Z * Z);          (* <pIndex Offset=o>variable slot</pIndex>, in document order *)
-  g_len : Z;
+  g_len : rlen;                    (* <Length>l</Length> or <pLength>variable slot</pLength> *)
   g_mode : Z;
   g_inval : list Z                 (* <pInvalidator> node ids *)
 }.
@@ -184,52 +200,62 @@ Definition address (r : creg) (vars : list Z) : outcome Z := addr_index (g_index
 
 Definition m_address (r : creg) : M Z := fun s => (address r (c_vars s), s).
 
+(* RegisterBase::length: the immediate, or the current value of the length variable *)
+Definition len_of (r : creg) (vars : list Z) : Z :=
+  match g_len r with LImm l => l | LVar slot => nth (Z.to_nat slot) vars 0 end.
+
+Definition m_length (r : creg) : M Z := fun s => (Ok (len_of r (c_vars s)), s).
+
 (* cacheable != CachingMode::NoCache (modes other than the three of the enum count as NoCache) *)
 Definition cacheable (r : creg) : bool := (g_mode r =? WT) || (g_mode r =? WA).
 
 (* the device read of read_and_cache followed by cx.cache_data unless NoCache *)
-Definition m_read_and_cache (on : bool) (n : Z) (r : creg) (a : Z) : M (list Z) :=
+Definition m_read_and_cache (on : bool) (n : Z) (r : creg) (a l : Z) : M (list Z) :=
   fun s =>
-    let '(o, d) := cdev_read (c_dev s) a (g_len r) in
+    let '(o, d) := cdev_read (c_dev s) a l in
     match o with
     | Ok bs => (Ok bs, set_cache (set_dev s d)
-                          (if cacheable r then c_put on (n, a, g_len r) bs (c_cache s) else c_cache s))
+                          (if cacheable r then c_put on (n, a, l) bs (c_cache s) else c_cache s))
     | Err e => (Err e, set_dev s d)
     | Panic => (Panic, set_dev s d)
     end.
 
-(* RegisterBase::with_cache_or_read (the closure f is applied by the caller) *)
+(* RegisterBase::with_cache_or_read (the closure f is applied by the caller): length, address,
+   get_cache(nid, address, length), else read_and_cache *)
 Definition m_cached_bytes (on : bool) (n : Z) (r : creg) : M (list Z) :=
-  if g_len r <? 0 then mlift (Err E_UNSUP) else
+  let! l := m_length r in
+  if l <? 0 then mlift (Err E_UNSUP) else
   let! a := m_address r in
   fun s =>
-    match c_find (n, a, g_len r) (c_cache s) with
+    match c_find (n, a, l) (c_cache s) with
     | Some bs => (Ok bs, s)
-    | None => m_read_and_cache on n r a s
+    | None => m_read_and_cache on n r a l s
     end.
 
 (* IRegister::read with a caller buffer of [blen] bytes: address, length, read_and_cache *)
 Definition m_raw_read (on : bool) (n : Z) (r : creg) (blen : Z) : M (list Z) :=
-  if g_len r <? 0 then mlift (Err E_UNSUP) else
   let! a := m_address r in
-  if negb (blen =? g_len r) then mlift (Err E_INVALID_BUFFER) else
-  m_read_and_cache on n r a.
+  let! l := m_length r in
+  if l <? 0 then mlift (Err E_UNSUP) else
+  if negb (blen =? l) then mlift (Err E_INVALID_BUFFER) else
+  m_read_and_cache on n r a l.
 
 (* RegisterBase::write_and_cache, with Port::write inlined *)
 Definition m_write_and_cache (on : bool) (v : ver) (y : system) (n : Z) (r : creg) (buf : list Z) : M unit :=
-  if g_len r <? 0 then mlift (Err E_UNSUP) else
   let! _ := (if fix_raw v then m_inval_by y n else mret tt) in
-  if negb (zlen buf =? g_len r) then mlift (Err E_INVALID_BUFFER) else
+  let! l := m_length r in
+  if l <? 0 then mlift (Err E_UNSUP) else
+  if negb (zlen buf =? l) then mlift (Err E_INVALID_BUFFER) else
   let! a := m_address r in
   let! _ := m_inval_by y (y_port y) in                       (* Port::write *)
   let! _ := m_dev_write a buf in
-  if g_mode r =? WT then m_put on (n, a, g_len r) buf
+  if g_mode r =? WT then m_put on (n, a, l) buf
   else if (g_mode r =? WA) && fix_wa v then m_inval_of n
   else mret tt.
 
 (* ---- register nodes -------------------------------------------------------------------------- *)
 
-Definition rcfg (r : creg) : regcfg := {| r_addr := g_base r; r_len := g_len r; r_endian := g_endian r |}.
+Definition rcfg (r : creg) (l : Z) : regcfg := {| r_addr := g_base r; r_len := l; r_endian := g_endian r |}.
 Definition ncfg (r : creg) : nodecfg :=
   {| n_kind := g_kind r; n_sign := g_sign r; n_lsb := g_lsb r; n_msb := g_msb r |}.
 
@@ -240,20 +266,23 @@ Definition m_intreg_value (on : bool) (n : Z) (r : creg) : M Z :=
 (* IntRegNode::set_value *)
 Definition m_intreg_set (on : bool) (v : ver) (y : system) (n : Z) (r : creg) (x : Z) : M unit :=
   let! _ := m_inval_by y n in
-  let! buf := mlift (bytes_from_int x (g_len r) (g_endian r) (g_sign r)) in
+  let! l := m_length r in
+  let! buf := mlift (bytes_from_int x l (g_endian r) (g_sign r)) in
   m_write_and_cache on v y n r buf.
 
 (* MaskedIntRegNode::value *)
 Definition m_masked_value (on : bool) (n : Z) (r : creg) : M Z :=
   let! reg := m_intreg_value on n r in
-  mlift (let? (l, m) := norm_field (rcfg r) (ncfg r) in Ok (bm_apply l m (g_sign r) reg)).
+  let! len := m_length r in
+  mlift (let? (l, m) := norm_field (rcfg r len) (ncfg r) in Ok (bm_apply l m (g_sign r) reg)).
 
 (* MaskedIntRegNode::set_value: read-modify-write *)
 Definition m_masked_set (on : bool) (v : ver) (y : system) (n : Z) (r : creg) (x : Z) : M unit :=
   let! _ := m_inval_by y n in
   let! old := m_intreg_value on n r in
-  let! nv := mlift (let? (l, m) := norm_field (rcfg r) (ncfg r) in bm_masked l m (g_sign r) old x) in
-  let! buf := mlift (bytes_from_int nv (g_len r) (g_endian r) (g_sign r)) in
+  let! len := m_length r in
+  let! nv := mlift (let? (l, m) := norm_field (rcfg r len) (ncfg r) in bm_masked l m (g_sign r) old x) in
+  let! buf := mlift (bytes_from_int nv len (g_endian r) (g_sign r)) in
   m_write_and_cache on v y n r buf.
 
 (* FloatRegNode *)
@@ -261,18 +290,20 @@ Definition m_float_value (on : bool) (n : Z) (r : creg) : M Z :=
   let! bs := m_cached_bytes on n r in mlift (float_from_slice bs (g_endian r)).
 Definition m_float_set (on : bool) (v : ver) (y : system) (n : Z) (r : creg) (bits : Z) : M unit :=
   let! _ := m_inval_by y n in
-  let! buf := mlift (bytes_from_float bits (g_len r) (g_endian r)) in
+  let! l := m_length r in
+  let! buf := mlift (bytes_from_float bits l (g_endian r)) in
   m_write_and_cache on v y n r buf.
 
 (* StringRegNode (value: the bytes up to the first NUL) *)
 Definition m_string_value (on : bool) (n : Z) (r : creg) : M (list Z) :=
   let! bs := m_cached_bytes on n r in mret (until_nul bs).
 Definition m_string_set (on : bool) (v : ver) (y : system) (n : Z) (r : creg) (s : list Z) : M unit :=
+  let! l := m_length r in                                    (* max_length *)
   if negb (is_ascii s) || has_nul s then mlift (Err E_INVALID_DATA)
-  else if g_len r <? zlen s then mlift (Err E_INVALID_DATA)
+  else if l <? zlen s then mlift (Err E_INVALID_DATA)
   else
     let! _ := m_inval_by y n in
-    m_write_and_cache on v y n r (s ++ repeat 0 (Z.to_nat (g_len r - zlen s))).
+    m_write_and_cache on v y n r (s ++ repeat 0 (Z.to_nat (l - zlen s))).
 
 (* ---- integer-valued nodes (IValue<i64> for NodeId) ------------------------------------------ *)
 
